@@ -320,3 +320,67 @@ class _ReqExt:
 
 
 ReqExt = gin.external_configurable(_ReqExt, 'ReqExt', module='vw')
+
+
+# ---- round-c probes ---------------------------------------------------------------------------
+@gin.configurable('include', module='vw.kw')
+def kw_include(x=0):
+  rec('include', x)
+  return x
+
+
+@gin.configurable('import', module='vw.kw')
+def kw_import(x=0):
+  rec('import', x)
+  return x
+
+
+@gin.configurable(module='vw', allowlist=['a'])
+def allow_kwo(a=DA, *, k=5):
+  rec('allow_kwo', a, k=k)
+  return (a, k)
+
+
+@gin.configurable(module='vw', denylist=['k'])
+def deny_kwo(a=DA, *, k=5):
+  rec('deny_kwo', a, k=k)
+  return (a, k)
+
+
+@gin.register(module='vw')
+class ReqM:
+  """registered class with a registered method that has signature-REQUIRED parameters"""
+
+  def __init__(self):
+    pass
+
+  @gin.register
+  def run(self, steps=gin.REQUIRED, seed=gin.REQUIRED):
+    rec('ReqM.run', steps, seed)
+    return (steps, seed)
+
+
+@gin.register(module='vw')
+class KmethD:
+  """registered class whose registered methods carry their own deny / allow lists"""
+
+  def __init__(self):
+    pass
+
+  @gin.register(denylist=['b'])
+  def dmeth(self, a=DA, b=DB):
+    rec('KmethD.dmeth', a, b)
+    return (a, b)
+
+  @gin.register(allowlist=['a'])
+  def ameth(self, a=DA, b=DB):
+    rec('KmethD.ameth', a, b)
+    return (a, b)
+
+
+@gin.configurable(module='vw')
+@_agnostic
+@_agnostic
+def wrapped2(a=DA, b=DB):
+  rec('wrapped2', a, b)
+  return (a, b)
